@@ -27,12 +27,12 @@ var Check = core.Check{
 
 func run(r *core.Run) {
 	only := os.Getenv("VERIF_ONLY")
-	r.Rule("(1) every value of every tree: all decoder-DSL programs with <= N ops (dsl_max_ops) x 2 inputs (programs with <= N-1 ops also decoded from a byte slice, a bit slice and with a root array), every corpus file x {probe, -d formats of its fqtests} x {intact, prefixes len-1, len/2, start of last top level field} (quick: files <= 256 KiB, trees <= 20000 values; thorough: all files, more truncations, trees <= 250000 values): topath, root|getpath(topath), parent, parents, root, buffer_root, format_root, _index, _name against the shape found by descent (Go identity of the values and their jq visible _start/_stop/_name/tobits); (2) every path array of length <= L (path_max_len) over 18 elements: path_to_expr | expr_to_path; non-trivial = tree with a nested buffer, a nested format or an array, or a path array with a key that is not an identifier")
+	r.Rule("(1) every value of every tree: all decoder-DSL programs with <= N ops (dsl_max_ops) x 2 inputs (programs with <= N-1 ops also decoded from a byte slice, a bit slice and with a root array), every corpus file x {probe, -d formats of its fqtests} x {intact, prefixes len-1, len/2, start of last top level field} (quick: files <= 256 KiB, trees <= 20000 values; thorough: all files, more truncations, trees <= 250000 values): topath, root|getpath(topath), parent, parents, root, buffer_root, format_root, _index, _name against the shape found by descent (Go identity of the values and their jq visible _start/_stop/_name/tobits); (2) every path array of length <= L (path_max_len) over 18 elements, and the key grid (every ASCII character and 47 characters of other scripts - case-fold partners of ASCII letters, foreign letters/digits, combining and format characters - in 6 positions of a key x 5 path shapes; every key of two ASCII class representatives): path_to_expr | expr_to_path; non-trivial = tree with a nested buffer, a nested format or an array, or a path array with a key that is not an identifier")
 	r.Assume("decode/2 only adds option defaults before calling _decode/2 (pkg/interp/decode.jq): DSL programs with more than 2 ops are decoded through _decode/2 directly")
 	r.Assume("format_root is the nearest value at or above that is a format root or a buffer root (a nested buffer without a format of its own, e.g. FieldStructRootBitBufFn, ends the search as in pkg/decode/value.go; the documentation does not say)")
 	r.Assume("_index of a struct field or of a parentless root is not judged (the property only asks that the parent holds the value under its name or index): counted in *_not_judged")
 	if only == "" || only == "paths" {
-		if runPaths(r, r.Start.Add(r.Deadline.Sub(r.Start)*20/100), core.Pick(r, 3, 4)) {
+		if runPaths(r, r.Start.Add(r.Deadline.Sub(r.Start)*35/100), core.Pick(r, 3, 4)) {
 			r.Section("paths")
 		}
 	}
